@@ -88,3 +88,40 @@ def compare_to_curve(what, out, z, tau, rec=None, cells=None):
     if rec is not None:
         rec.ties += nties
     return nties
+
+
+def whittaker_support(out, y, valid, lam, wmax=1.0):
+    """Necessary conditions for `out` (int16) to be the rounding of the solution z of (W + lam D'D) z = W y with weights
+    0 <= w_i <= wmax on valid cells and 0 on missing cells.
+
+    Row i of the normal equations reads  w_i (y_i - z_i) = lam (D'D z)_i.  With out = z + e, |e| <= 1/2:
+    |lam (D'D out)_i - lam (D'D z)_i| <= 8 lam  and  |(y_i - out_i) - (y_i - z_i)| <= 1/2.
+    Returns (number of valid cells that can carry a positive weight, largest |(D'D out)_i| over missing cells that is
+    inconsistent with weight 0, i.e. minus the 8-unit rounding allowance).
+    """
+    o = np.asarray(out, dtype=np.float64)
+    n = o.size
+    d2 = np.diff(o, 2)
+    dtd = np.zeros(n)
+    dtd[:-2] += d2
+    dtd[1:-1] += -2 * d2
+    dtd[2:] += d2
+    g = lam * dtd
+    eps = 8.0 * lam + 1e-6 * (1 + lam)
+    v = np.asarray(valid, dtype=bool)
+    d = np.asarray(y, dtype=np.float64) - o
+    support = 0
+    for i in np.nonzero(v)[0]:
+        glo, ghi = g[i] - eps, g[i] + eps
+        dlo, dhi = d[i] - 0.5 - 1e-6, d[i] + 0.5 + 1e-6
+        ok = False
+        # exists gg in [glo, ghi], dd in [dlo, dhi], w in (0, wmax] with gg = w * dd
+        if dlo <= 0 <= dhi and glo <= 0 <= ghi:
+            ok = True
+        if not ok and dhi > 0 and ghi > 0 and glo <= wmax * dhi:
+            ok = True
+        if not ok and dlo < 0 and glo < 0 and ghi >= wmax * dlo:
+            ok = True
+        support += ok
+    miss = np.abs(dtd[~v]).max() - 8.0 - 1e-6 if (~v).any() else -np.inf
+    return support, miss
